@@ -19,7 +19,7 @@ ASSUMPTIONS = [
 AT = [("AT", "ExcludeRegion", "disable"), ("AT", "ExcludeRegion", "enable")]
 POINTS_RETRACT = [("TRAVEL", "O1"), ("TRAVEL", "O2"), ("TRAVEL", "I1"), ("TRAVEL", "I2"), ("TRAVEL", "Bd"),
                   ("TRAVEL", "Br"), ("TRAVEL", "N"), ("TRAVEL", "Org"), ("XONLY", "I1"), ("PRINT", "I1"), ("PRINT", "O2"), ("PRINT", "O1"),
-                  ("RETRACT",), ("RECOVER",), ("WIPE", "I2"), ("WIPE", "O2"), ("ESET0",)]
+                  ("RETRACT",), ("RECOVER",), ("WIPE", "I2"), ("WIPE", "O2"), ("ESET0",), ("SET", "save", None)]
 AT_AXIS = [("TRAVEL", "O2"), ("TRAVEL", "I1"), ("XONLY", "I1"), ("YONLY", "I1"), ("XONLY", "O2"), ("PRINT", "I2"),
            ("ZMOVE", 2), ("ZMOVE", 1), ("RETRACT",), ("RECOVER",), ("TRACKPROBE",)] + AT
 ARC_ADD = [("TRAVEL", "O1"), ("TRAVEL", "O2"), ("TRAVEL", "O3"), ("TRAVEL", "I1"), ("PRINT", "I2"), ("PRINT", "O2"),
